@@ -23,7 +23,7 @@ import pandas as pd
 from .. import stages
 from ..binseg import consts as bconsts
 from ..common import Check, sha
-from ..project import project_sparse
+from ..project import index_kinds, project_sparse
 from ..tlc import Workdir
 from .c02 import base_consts
 from .c03 import consts as capa_consts
@@ -61,6 +61,12 @@ def record(args):
         if np.all(X == np.round(X)) and rng.integers(0, 3) == 0:
             X = X.astype(np.int64)       # integer-typed input is valid input
         rid = f"w-{seed}-{i}"
+        rep = "ndarray"
+        if rng.integers(0, 3) > 0:
+            # the detections are integer LOCATIONS whatever index the data carry (offset / stepped / negative range index,
+            # dates, periods, repeated values): two thirds of the runs get a frame with one of them
+            rep = str(rng.choice(list(index_kinds(len(X)))))
+            X = pd.DataFrame(X, index=index_kinds(len(X))[rep], columns=[f"v{j}" for j in range(p)])
         try:
             det = cls(**params).fit(X)
             y = det.predict(X)
@@ -71,7 +77,7 @@ def record(args):
             continue
         lim = limits(name, params, len(X))
         sparse, ok = project_sparse(y, lim["kind"])
-        out.append({"id": rid, "rec": "output", "det": name, "params": repr(params)[:200], "n": len(X), "p": p, "data_kind": kind,
+        out.append({"id": rid, "rec": "output", "det": name, "params": repr(params)[:200], "n": len(X), "p": p, "data_kind": kind, "index": rep,
                     "sparse": sparse, "frame_ok": bool(ok), "minseg": lim.get("minseg", 0), "lo": lim.get("lo", 0), "hi": lim.get("hi", 0),
                     "lengths": lim.get("lengths", "none"), "m": lim.get("m", 1), "mx": lim.get("mx", 0), "kind": lim["kind"]})
     return out
@@ -81,7 +87,7 @@ def run(tier: str) -> int:
     chk = Check(PROP, tier)
     chk.rule = ("stage A: every table of the algorithm models within small constants; stage C: 7 detectors x 2..4 parameter sets "
                 "(incl. min_segment_length = 1, bandwidth = 1, max_interval_length = 2*min_segment_length, max = min segment "
-                "length) x 7 data shapes x n from the minimum length up x p in 1..4, seeded.  Non-trivial = at least one "
+                "length) x 7 data shapes x n from the minimum length up x p in 1..4 x {array, frame on one of 8 index kinds}, seeded.  Non-trivial = at least one "
                 "detection in the output; distinct by hash of (detector, parameters, data).")
     chk.assumptions = ["TLC/SANY and the Json module", "dtype / closedness / index facts are read off the frame by the projection and "
                        "passed to TLC as booleans", "the configuration grid around the documented bounds is C14's (its OK outputs go "
@@ -103,7 +109,7 @@ def run(tier: str) -> int:
             chk.case(r)
             chk.violation({"stage": "C", "record": r}, "raises", {"clause": "raises", "det": r["det"], "params": r["params"]})
         recs = [r for r in recs if "error" not in r]
-        slim = [{k: v for k, v in r.items() if k not in ("params", "data_kind")} for r in recs]
+        slim = [{k: v for k, v in r.items() if k not in ("params", "data_kind", "index")} for r in recs]
         verdicts = stages.validate_traces(chk, "Trace_Formats", slim, wd=wd, label="C:outputs", batch=400)
         for r in recs:
             v = verdicts.get(r["id"])
